@@ -165,4 +165,295 @@ theorem view_refinement (l : List CNode) (m : PMap) (b k : Key) (v : Value) (hu 
           | none => simp [hr] at h; rw [hr] at this; simp at this; rw [← h.1]; exact this
           | some l2 => simp [hr] at h; rw [hr] at this; simp at this; rw [← h.1]; exact this
 
+theorem get_filter (P : Key → Bool) (m : PMap) (k' : Key) :
+    PathMap.get (m.filter (fun e => !(P e.1))) k' = if P k' then none else PathMap.get m k' := by
+  simp only [PathMap.get]
+  rw [List.find?_filter]
+  by_cases hp : P k'
+  · simp only [hp, ↓reduceIte]
+    have : ∀ o : Option (Key × Value), o = none → o.map (fun x => x.2) = none := by intro o h; rw [h]; rfl
+    apply this
+    apply List.find?_eq_none.2
+    intro x _
+    by_cases hx : x.1 = k'
+    · simp [hx, hp]
+    · simp [hx]
+  · simp only [hp, Bool.false_eq_true, ↓reduceIte]
+    congr 1
+    apply find?_ext
+    intro x _
+    by_cases hx : x.1 = k'
+    · simp [hx, hp]
+    · simp [hx]
+
+/-- clearing: everything strictly beneath the path reads "absent", every other path reads what it read before -/
+theorem valueAt_clear : ∀ (b : Key) (l l' : List CNode), clearExact l b = some l' →
+    ∀ k', valueAt l' k' = if (b.isPrefixOf k' && k' != b) then none else valueAt l k'
+  | [], _, _, h, _ => by simp [clearExact] at h
+  | e :: es, l, l', h, k' => by
+    simp only [clearExact] at h
+    cases k' with
+    | nil => simp [valueAt_nil_key, List.isPrefixOf]
+    | cons e' es' =>
+      cases hl : locate l e with
+      | none => simp [hl] at h
+      | some i =>
+        obtain ⟨c, hc, hcn⟩ := locate_name hl
+        simp only [hl, hc] at h
+        simp only [List.isPrefixOf]
+        by_cases hes : es.isEmpty
+        · simp only [hes, ↓reduceIte, Option.some.injEq] at h
+          subst h
+          have hes' : es = [] := by simpa using hes
+          subst hes'
+          rw [valueAt_set (c' := .mk c.name c.value []) hl hc rfl]
+          by_cases he : e' = e
+          · subst he
+            simp only [↓reduceIte, beq_self_eq_true, Bool.true_and, CNode.value_mk, CNode.kids_mk, List.isPrefixOf]
+            by_cases hes'' : es'.isEmpty
+            · have : es' = [] := by simpa using hes''
+              subst this
+              simp [valueAt_cons_key, hl, hc]
+            · have hne : es' ≠ [] := by intro h'; simp [h'] at hes''
+              have hnil : valueAt [] es' = none := by
+                cases es' with
+                | nil => exact absurd rfl hne
+                | cons a as => simp [valueAt, findExact, locate]
+              simp [hes'', hne, hnil]
+          · have : (e == e') = false := by simp; exact fun h' => he h'.symm
+            simp [he, this]
+        · simp only [hes, Bool.false_eq_true, ↓reduceIte] at h
+          have hne : es ≠ [] := by intro h'; simp [h'] at hes
+          cases hk : clearExact c.kids es with
+          | none => simp [hk] at h
+          | some ks' =>
+            simp only [hk, Option.some.injEq] at h
+            subst h
+            rw [valueAt_set (c' := .mk c.name c.value ks') hl hc rfl]
+            by_cases he : e' = e
+            · subst he
+              simp only [↓reduceIte, beq_self_eq_true, Bool.true_and, CNode.value_mk, CNode.kids_mk]
+              by_cases hes'' : es'.isEmpty
+              · have : es' = [] := by simpa using hes''
+                subst this
+                have hpre : es.isPrefixOf [] = false := by
+                  cases es with
+                  | nil => exact absurd rfl hne
+                  | cons a as => rfl
+                simp [hpre, valueAt_cons_key, hl, hc]
+              · simp only [hes'', Bool.false_eq_true, ↓reduceIte]
+                rw [valueAt_clear es c.kids ks' hk es', valueAt_cons_key (l := l), hl]
+                simp only [hc, hes'', Bool.false_eq_true, ↓reduceIte]
+                have : ((e' :: es') != (e' :: es)) = (es' != es) := by
+                  by_cases h' : es' = es
+                  · subst h'; simp
+                  · have h2 : ¬ (e' :: es') = (e' :: es) := by simpa using h'
+                    simp [bne, h', h2]
+                rw [this]
+            · have : (e == e') = false := by simp; exact fun h' => he h'.symm
+              simp [he, this]
+
+/-- dropping the value of one element: that path reads "absent", every other path reads what it read before -/
+theorem valueAt_unset : ∀ (b : Key) (l l' : List CNode), unsetExact l b = some l' →
+    ∀ k', valueAt l' k' = if k' = b then none else valueAt l k'
+  | [], _, _, h, _ => by simp [unsetExact] at h
+  | e :: es, l, l', h, k' => by
+    simp only [unsetExact] at h
+    cases k' with
+    | nil => simp [valueAt_nil_key]
+    | cons e' es' =>
+      cases hl : locate l e with
+      | none => simp [hl] at h
+      | some i =>
+        obtain ⟨c, hc, hcn⟩ := locate_name hl
+        simp only [hl, hc] at h
+        by_cases hes : es.isEmpty
+        · simp only [hes, ↓reduceIte, Option.some.injEq] at h
+          subst h
+          have hes' : es = [] := by simpa using hes
+          subst hes'
+          rw [valueAt_set (c' := .mk c.name none c.kids) hl hc rfl]
+          by_cases he : e' = e
+          · subst he
+            simp only [↓reduceIte, CNode.value_mk, CNode.kids_mk, List.cons.injEq, true_and]
+            by_cases hes'' : es'.isEmpty
+            · have : es' = [] := by simpa using hes''
+              subst this
+              simp
+            · have hne : es' ≠ [] := by intro h'; simp [h'] at hes''
+              simp [hes'', hne, valueAt_cons_key, hl, hc]
+          · simp [he]
+        · simp only [hes, Bool.false_eq_true, ↓reduceIte] at h
+          have hne : es ≠ [] := by intro h'; simp [h'] at hes
+          cases hk : unsetExact c.kids es with
+          | none => simp [hk] at h
+          | some ks' =>
+            simp only [hk, Option.some.injEq] at h
+            subst h
+            rw [valueAt_set (c' := .mk c.name c.value ks') hl hc rfl]
+            by_cases he : e' = e
+            · subst he
+              simp only [↓reduceIte, CNode.value_mk, CNode.kids_mk, List.cons.injEq, true_and]
+              by_cases hes'' : es'.isEmpty
+              · have : es' = [] := by simpa using hes''
+                subst this
+                have : ¬ ([] : Key) = es := fun h' => hne h'.symm
+                simp [this, valueAt_cons_key, hl, hc]
+              · simp only [hes'', Bool.false_eq_true, ↓reduceIte]
+                rw [valueAt_unset es c.kids ks' hk es', valueAt_cons_key (l := l), hl]
+                simp [hc, hes'']
+            · simp [he]
+
+theorem Uniq_clear : ∀ (b : Key) (l l' : List CNode), Uniq l → clearExact l b = some l' → Uniq l'
+  | [], _, _, _, h => by simp [clearExact] at h
+  | e :: es, l, l', hu, h => by
+    simp only [clearExact] at h
+    cases hl : locate l e with
+    | none => simp [hl] at h
+    | some i =>
+      obtain ⟨c, hc, _⟩ := locate_name hl
+      simp only [hl, hc] at h
+      by_cases hes : es.isEmpty
+      · simp only [hes, ↓reduceIte, Option.some.injEq] at h
+        subst h
+        exact Uniq_set hu hc rfl (by simp [Uniq])
+      · simp only [hes, Bool.false_eq_true, ↓reduceIte] at h
+        cases hk : clearExact c.kids es with
+        | none => simp [hk] at h
+        | some ks' =>
+          simp only [hk, Option.some.injEq] at h
+          subst h
+          exact Uniq_set hu hc rfl (by simpa using Uniq_clear es c.kids ks' (Uniq_getElem hu hc) hk)
+
+theorem Uniq_unset : ∀ (b : Key) (l l' : List CNode), Uniq l → unsetExact l b = some l' → Uniq l'
+  | [], _, _, _, h => by simp [unsetExact] at h
+  | e :: es, l, l', hu, h => by
+    simp only [unsetExact] at h
+    cases hl : locate l e with
+    | none => simp [hl] at h
+    | some i =>
+      obtain ⟨c, hc, _⟩ := locate_name hl
+      simp only [hl, hc] at h
+      by_cases hes : es.isEmpty
+      · simp only [hes, ↓reduceIte, Option.some.injEq] at h
+        subst h
+        exact Uniq_set hu hc rfl (by simpa using Uniq_getElem hu hc)
+      · simp only [hes, Bool.false_eq_true, ↓reduceIte] at h
+        cases hk : unsetExact c.kids es with
+        | none => simp [hk] at h
+        | some ks' =>
+          simp only [hk, Option.some.injEq] at h
+          subst h
+          exact Uniq_set hu hc rfl (by simpa using Uniq_unset es c.kids ks' (Uniq_getElem hu hc) hk)
+
+/-- nothing to clear / unset: the path does not exist, so nothing at or beneath it holds a value -/
+theorem clearExact_none_find : ∀ (b : Key) (l : List CNode), b ≠ [] → clearExact l b = none → findExact l b = none
+  | [], _, h, _ => absurd rfl h
+  | e :: es, l, _, h => by
+    simp only [clearExact] at h
+    simp only [findExact]
+    cases hl : locate l e with
+    | none => simp
+    | some i =>
+      simp only [hl] at h ⊢
+      cases hc : l[i]? with
+      | none => simp
+      | some c =>
+        simp only [hc] at h ⊢
+        by_cases hes : es.isEmpty
+        · simp [hes] at h
+        · simp only [hes, Bool.false_eq_true, ↓reduceIte] at h ⊢
+          cases hk : clearExact c.kids es with
+          | some ks' => simp [hk] at h
+          | none => exact clearExact_none_find es c.kids (by intro h'; simp [h'] at hes) hk
+
+theorem unsetExact_none_find : ∀ (b : Key) (l : List CNode), b ≠ [] → unsetExact l b = none → findExact l b = none
+  | [], _, h, _ => absurd rfl h
+  | e :: es, l, _, h => by
+    simp only [unsetExact] at h
+    simp only [findExact]
+    cases hl : locate l e with
+    | none => simp
+    | some i =>
+      simp only [hl] at h ⊢
+      cases hc : l[i]? with
+      | none => simp
+      | some c =>
+        simp only [hc] at h ⊢
+        by_cases hes : es.isEmpty
+        · simp [hes] at h
+        · simp only [hes, Bool.false_eq_true, ↓reduceIte] at h ⊢
+          cases hk : unsetExact c.kids es with
+          | some ks' => simp [hk] at h
+          | none => exact unsetExact_none_find es c.kids (by intro h'; simp [h'] at hes) hk
+
+/-- remove through a view with an empty path (everything beneath the base goes, the base keeps its value) and with
+    a NULL path (the base loses its value); the global object with an empty path is emptied -/
+theorem view_refinement_empty (l : List CNode) (m : PMap) (b : Key) (hu : Uniq l) (ha : Agree l m) :
+    (∀ l' r, b ≠ [] → configRemoveP l b (some []) = .ok (l', r) → Uniq l' ∧ Agree l' (removeBelow m b)) ∧
+    (∀ l' r, b ≠ [] → configRemoveP l b none = .ok (l', r) → Uniq l' ∧ Agree l' (PathMap.unset m b)) ∧
+    (∀ l' r, configRemoveP l [] (some []) = .ok (l', r) → l' = []) := by
+  refine ⟨?_, ?_, ?_⟩
+  · intro l' r hb h
+    simp only [configRemoveP, configRemove] at h
+    by_cases hl : l.isEmpty
+    · simp [hl] at h
+    · simp only [hl, Bool.false_eq_true, ↓reduceIte, hb] at h
+      cases hc : clearExact l b with
+      | some l2 =>
+        simp only [hc, Res.ok.injEq, Prod.mk.injEq] at h
+        obtain ⟨rfl, _⟩ := h
+        refine ⟨Uniq_clear b l l2 hu hc, fun k' hk' => ?_⟩
+        rw [valueAt_clear b l l2 hc k', removeBelow, get_filter (fun k => b.isPrefixOf k && k != b), ha k' hk']
+      | none =>
+        simp only [hc, Res.ok.injEq, Prod.mk.injEq] at h
+        obtain ⟨rfl, _⟩ := h
+        refine ⟨hu, fun k' hk' => ?_⟩
+        rw [removeBelow, get_filter (fun k => b.isPrefixOf k && k != b)]
+        by_cases hp : (b.isPrefixOf k' && k' != b)
+        · simp only [hp, ↓reduceIte]
+          have hbp : b.isPrefixOf k' = true := by
+            rw [Bool.and_eq_true] at hp; exact hp.1
+          simp [valueAt, findExact_prefix_none b l k' hb (clearExact_none_find b l hb hc) hbp]
+        · simp only [hp, Bool.false_eq_true, ↓reduceIte]
+          exact ha k' hk'
+  · intro l' r hb h
+    simp only [configRemoveP] at h
+    by_cases hl : l.isEmpty
+    · simp [hl] at h
+    · simp only [hl, Bool.false_eq_true, ↓reduceIte, hb] at h
+      cases hc : unsetExact l b with
+      | some l2 =>
+        simp only [hc, Res.ok.injEq, Prod.mk.injEq] at h
+        obtain ⟨rfl, _⟩ := h
+        refine ⟨Uniq_unset b l l2 hu hc, fun k' hk' => ?_⟩
+        rw [valueAt_unset b l l2 hc k', PathMap.unset]
+        have := get_filter (fun k => k == b) m k'
+        simp only [beq_iff_eq] at this
+        have e1 : (m.filter fun e => e.1 != b) = (m.filter fun e => !(e.1 == b)) := by
+          congr 1
+        rw [e1, this, ha k' hk']
+      | none =>
+        simp only [hc, Res.ok.injEq, Prod.mk.injEq] at h
+        obtain ⟨rfl, _⟩ := h
+        refine ⟨hu, fun k' hk' => ?_⟩
+        rw [PathMap.unset]
+        have := get_filter (fun k => k == b) m k'
+        simp only [beq_iff_eq] at this
+        have e1 : (m.filter fun e => e.1 != b) = (m.filter fun e => !(e.1 == b)) := by
+          congr 1
+        rw [e1, this]
+        by_cases hk : k' = b
+        · subst hk
+          simp [valueAt, unsetExact_none_find k' l hb hc]
+        · simp only [hk, ↓reduceIte]
+          exact ha k' hk'
+  · intro l' r h
+    simp only [configRemoveP, configRemove] at h
+    by_cases hl : l.isEmpty
+    · simp [hl] at h
+    · simp [hl] at h
+      exact h.1
+
+
 end Mpt.Config
